@@ -92,7 +92,7 @@ CHECKS["C11"] = ("exploration",
     "5/C11")
 CHECKS["C12"] = ("model_checking",
     "explicit-state BFS over histories of public calls on real estimators with a differential oracle (history;fit vs fresh fit), plus a cross-process order differential for process-global state",
-    "For each of the 18 estimators (1-3 configurations) all histories up to depth 2 (quick) / 3 (thorough) over the alphabet fit(X1), fit(X2 other shape), fit(X3 same shape), fit_predict, predict, predict_proba, score, set_params(several), path (sparse), clone are replayed on fresh real objects; states are deduplicated by (class, hyperparameters, digest of all fitted attributes incl. optimiser state). In every state: history;fit(X1) equals a fresh estimator's fit(X1) on every attribute bitwise, same for clone and for path, caller arrays are bit-identical and writeable, hyperparameters change only through set_params, get_params/set_params/clone round-trip. A second explorer repeats fits/paths of same-shaped data sets in a different order in a fresh interpreter to expose module-level state.",
+    "For each of the 18 estimators (1-3 configurations) all histories up to depth 2 (quick) / 4 (thorough) over the alphabet fit(X1), fit(X2 other shape), fit(X3 same shape), fit_predict, predict, predict_proba, score, set_params(several), path (sparse), clone are replayed on fresh real objects; states are deduplicated by (class, hyperparameters, digest of all fitted attributes incl. optimiser state). In every state: history;fit(X1) equals a fresh estimator's fit(X1) on every attribute bitwise, same for clone and for path, caller arrays are bit-identical and writeable, hyperparameters change only through set_params, get_params/set_params/clone round-trip. A second explorer repeats fits/paths of same-shaped data sets in a different order in a fresh interpreter to expose module-level state.",
     "Depth-bounded; merged states have the same futures because public methods only read hyperparameters and fitted attributes.",
     "5/C12")
 CHECKS["C16"] = ("exploration",
